@@ -15,10 +15,11 @@
    Pow (exponent value = float(exponent) tracked for sums and products of numbers and quantities; the model
    declines other closed exponents and zero exponents -- then there is no UOk to speak about), Abs, functions
    with dimensionless arguments, Max/Min/Mod, relations, And/Or/Not/Xor, Piecewise with its conditions.
-   Not proved (tested by the oracle only): strict inference accepts the result (C05_result_infers).
+   Clause (b), strict inference accepts the result: C05_result_infers_partial / C05_result_infers below
+   (Proofs/C05InferP.v), with the guard explained there and C05_result_infers_refuted for what it excludes.
    Since the mul-rebuild repair a product is rebuilt only when an operand was converted (model: EMul case). *)
 From Coq Require Import List ZArith QArith Reals Qreals.
-From Verif Require Import UnitAlg UnitAlgP Expr Eval UnitCalc UnitCalcP C04P C05P.
+From Verif Require Import UnitAlg UnitAlgP Expr Eval UnitCalc UnitCalcP C04P C05P C05InferP.
 Import ListNotations.
 Open Scope R_scope.
 
@@ -63,6 +64,58 @@ Theorem C05_floor_refuted :
     Qeq_bool (inject_Z (Qfloor (cf * 1500))) (inject_Z (Qfloor 1500) * cf) = false.
 Proof. exact convert_floor_refuted. Qed.
 Print Assumptions C05_floor_refuted.
+
+(* Clause (b): the converted expression passes strict unit inference.
+   The model writes a conversion quantity as EQty (-d) q (-3), "unit to/from, not tabulated"; inference needs
+   that unit, so the statement is about a decoration e'' of the output (erase e'' = e'): each conversion quantity
+   gets a fresh index into the extended unit table utab G ++ D holding its unit to/from; Th is any further
+   extension.  Guard: [pure G] (no base unit without dimension such as pint's radian) and [strictb G e]
+   (real-valued: relations / And / Or only as piecewise conditions; no floor / ceiling; every function unary --
+   strict inference has no rule for Max / Min / Mod; every exponent a number literal or a quantity whose unit is
+   literally dimensionless -- compound exponents and exponents in scaled units are tested by the oracle only).
+   Under the guard strict inference NEVER raises a UnitError on the result and any unit it returns is equivalent
+   to the returned units; what remains possible is a Python exception from magnitude arithmetic (known finding
+   result-fails-strict-inference-magnitude) or a case the model declines: [no_python_exception]. *)
+Theorem C05_result_infers_partial : forall G e to e' c u,
+  convert G e to = UOk (e', c, u) -> pure G = true -> strictb G e = true ->
+  exists D e'', erase (tabN G) e'' = e' /\
+    forall Th, match infer (ext G (D ++ Th)) e'' with
+               | UOk r => ueq (expand G (fst r)) (expand G u)
+               | UErr _ => False
+               | UOther | UUnsupp => True
+               end.
+Proof. exact result_infers_partial. Qed.
+Print Assumptions C05_result_infers_partial.
+
+Theorem C05_result_infers : forall G e to e' c u,
+  convert G e to = UOk (e', c, u) -> pure G = true -> strictb G e = true ->
+  exists D e'', erase (tabN G) e'' = e' /\
+    forall Th, no_python_exception (ext G (D ++ Th)) e'' = true ->
+      exists r, infer (ext G (D ++ Th)) e'' = UOk r /\ ueq (expand G (fst r)) (expand G u).
+Proof. exact result_infers. Qed.
+Print Assumptions C05_result_infers.
+
+Theorem C05_result_infers_refuted :
+  (let e := EAdd [EVar 0; EVar 1] in
+   convert G_rad e None = UOk (e, false, [(0%Z, 1%Q)]) /\ strictb G_rad e = true /\ pure G_rad = false /\
+   infer G_rad e = UErr EInvalidUnits) /\
+  (let e := EPow (EVar 0) (EQty 0 2 1) in
+   exists u, convert G_one e None = UOk (e, false, u) /\ pure G_one = true /\ homog e = true /\ strictb G_one e = false /\
+   infer G_one e = UErr EMustBeDimensionless) /\
+  (let e := EFn fn_max [EQty 0 1 0; EQty 1 2 0] in
+   convert G_one e None = UOk (e, false, []) /\ pure G_one = true /\ homog e = true /\ strictb G_one e = false /\
+   infer G_one e = UErr EUnexpectedMath).
+Proof. exact result_infers_refuted. Qed.
+Print Assumptions C05_result_infers_refuted.
+
+(* the hypotheses of C05_result_infers are satisfiable with a real conversion inside a sum inside a product:
+   (a[mV] + b[volt]) * a  becomes  (a + _1000[mV/volt] * b) * a  in mV * mV, and strict inference returns mV * mV *)
+Example C05_result_infers_example :
+  pure G_x = true /\ strictb G_x e_x = true /\
+  convert G_x e_x None = UOk (e_x', true, u_x) /\
+  erase (tabN G_x) e_x'' = e_x' /\ no_python_exception (ext G_x D_x) e_x'' = true /\
+  exists r, infer (ext G_x D_x) e_x'' = UOk r /\ sem_equiv G_x (fst r) u_x = true.
+Proof. exact result_infers_example. Qed.
 
 (* the guard is satisfiable and a conversion really happens:  Abs(a[mV]) + a  to volt *)
 Example C05_homog_example :
